@@ -1,5 +1,5 @@
 SPECIFICATION Spec
-CONSTANTS MaxD = 2  MaxB = 3  Caps = {9}  MaxAborts = 0
+CONSTANTS MaxD = 3  MaxB = 2  MaxLeaves = 5  Caps = {9}  MaxAborts = 0
 INVARIANT TypeOK
 INVARIANT NoDuplicateLeaf
 INVARIANT AllLeavesVisitedAtStop
